@@ -67,21 +67,20 @@ def _same(tts, snaps):
 def execute(case):
     T = core.tt()
     ck = Checker()
-    if not T.cpp_enabled():
-        raise core.HarnessError("C++ backend not loaded")
+    if not T.cpp_enabled() or not getattr(T._dmrg, "_flag_use_cpp", False):
+        raise core.HarnessError("C++ backend not loaded (solvers / _dmrg flags)")
     routine = case["routine"]
     ck.label("routine:" + routine, "order:%d" % len(case["N"]))
     eps = case["eps"]
     if routine == "amen_solve":
         N = case["N"]
         d = len(N)
-        Ac, bc = c12.build_system(case)
-        A, b = T.TT(core.clone_cores(Ac)), T.TT(core.clone_cores(bc))
-        ck.label("class:" + case["class"], "prec:%s" % case["prec"], "max_full:%d" % case["max_full"])
-        x0 = None
-        if "x0_R" in case:
+        # the same operands as C12 builds (scaled operator / right-hand side, zero / unit / A@ones right-hand sides, zero, far-off,
+        # right-hand-side and unit initial guesses): the statement quantifies over the C12 input classes
+        A, b, x0, Ac, bc, solver12, it12 = c12.build_operands(T, ck, case)
+        ck.label("max_full:%d" % case["max_full"])
+        if x0 is not None:
             ck.label("guess")
-            x0 = T.TT(core.make_cores({"N": N, "R": case["x0_R"], "dt": "f64", "mode": "gauss", "seed": case["seed"] + 7}))
         kw = dict(eps=eps, preconditioner=case["prec"], max_full=case["max_full"], verbose=False,
                   local_iterations=case.get("gmres", [40, 2])[0], resets=case.get("gmres", [40, 2])[1])
         torch.manual_seed(case["lib_seed"])
@@ -130,10 +129,13 @@ def execute(case):
     if "init_R" in case:
         ck.label("guess")
         init = T.TT(core.make_cores({"N": M, "R": case["init_R"], "dt": dt, "mode": "gauss", "seed": case["init_seed"]}))
+    elif case.get("init_is_operand") and list(M) == list(N):
+        init = x
+        ck.label("guess", "guess_is_operand")
     ref = torch.tensordot(dense(c1), dense(c2), dims=d)
     nref = fro(ref)
     if nref == 0:
-        return ck.verdict()
+        ck.label("zero_product")
     torch.manual_seed(case["lib_seed"])
     try:
         yp = lib(lambda: A.fast_matvec(x, eps=eps, initial=init, use_cpp=False))
